@@ -112,6 +112,9 @@ class RecErr:
         self.rng = random.Random(self.fault.get("seed", 0))
         self.streak = 0
         self.fired = 0
+        self.keep_states = False
+        self.calls = []
+        self.on_call = None
 
     def init_error(self):
         return self.inner.init_error()
@@ -123,6 +126,11 @@ class RecErr:
         ep, st = self.inner.estimate_error_norm(state, previous=previous, proposed=proposed, dt=dt, atol=atol,
                                                 rtol=rtol, damp=damp)
         true = float(ep)
+        if self.keep_states:
+            self.calls.append({"previous": previous, "proposed": proposed, "dt": float(dt), "atol": float(atol), "rtol": float(rtol),
+                               "damp": float(damp), "ep": true})
+        if self.on_call is not None:
+            self.on_call()
         p = self.fault.get("p_reject", 0.0)
         out = ep
         if p > 0 and true >= 1.0 and self.streak < self.fault.get("max_burst", 2) and self.rng.random() < p:
